@@ -20,7 +20,7 @@ ASSUMPTIONS = [
     'an inner Read returning 0 means end of data (std contract)',
 ]
 MANIFEST = {'text': 'proof of the structural conditions behind "never signals end-of-data early / keeps low-mark look-ahead": production low-mark covers a maximal message and the buffer has room, '
-                    'EOF is latched only by an empty read, the refill loop cannot be left short of the low mark except by EOF/full buffer/error, fill_buf returns buf[pos..cap], consume clamps, and the message iterator advances only by a parsed length or one byte.'}
+                    'EOF is latched only by an empty read, the refill loop cannot be left short of the low mark except by EOF/full buffer/error, fill_buf returns buf[pos..cap], consume clamps, and the message iterator advances only by a parsed length or one byte. Added: the inner source is read only into the reader\'s own buffer (no bypass that moves the source without pos/cap/abs_pos).'}
 
 RD = 'adlt::utils::lowmarkbufreader::LowMarkBufReader'
 
@@ -34,8 +34,17 @@ def run(F, chk):
     if maxmsg is None or cl is None:
         M1.violation(('anchor-lost', 'constants'), 'DLT_MAX_STORAGE_MSG_SIZE / CACHE_LINE_SIZE not found')
         return
+    n = check_reader_configs(F, M1, maxmsg, cl)
+    M1.floor('production constructions of LowMarkBufReader', n, 2)
+    check_constructor(F, M1, cl)
+    check_rest(F, chk, M2, M3, cl)
+
+
+def check_reader_configs(F, M1, maxmsg, cl, only=None):
     n = 0
     for b in F.order:
+        if only is not None and not only(b):
+            continue
         for blk in b.calls():
             if blk.term.callee.path == RD + '::<R>::new':
                 cfg = CFG(b)
@@ -53,7 +62,10 @@ def run(F, chk):
                 else:
                     M1.violation(('config', b.closure_of or b.path, 'cap%d' % cap, 'low%d' % low), 'LowMarkBufReader::new at %s: capacity %d, low mark %d but a maximal message has %d bytes and the reader needs low_mark + %d <= capacity' %
                                  (b.loc(blk.term.sp), cap, low, maxmsg, cl), where=b.loc(blk.term.sp))
-    M1.floor('production constructions of LowMarkBufReader', n, 2)
+    return n
+
+
+def check_constructor(F, M1, cl):
     new = F.get(RD + '::<R>::new')
     if new is None:
         M1.violation(('anchor-lost', 'new'), 'LowMarkBufReader::new not found')
@@ -93,6 +105,9 @@ def run(F, chk):
             else:
                 M1.violation(('allocated-size-not-asserted', new.path), 'LowMarkBufReader::new allocates the buffer with %s at %s, which is not the parameter `capacity` that the asserts check: '
                              'the relation low_mark + %d <= buffer length is no longer guaranteed' % (show(e)[:60], new.loc(blk.term.sp), cl), where=new.loc(blk.term.sp))
+
+
+def check_rest(F, chk, M2, M3, cl):
     fb = [b for b in F.order if b.path.startswith('<' + RD) and b.path.endswith('BufRead>::fill_buf')]
     cs = [b for b in F.order if b.path.startswith('<' + RD) and b.path.endswith('BufRead>::consume')]
     rd = [b for b in F.order if b.path.startswith('<' + RD) and b.path.endswith('io::Read>::read')]
@@ -357,7 +372,7 @@ def check_fill(b, M2, F=None):
                         rs = helper_bool_reasons(hb2[0], val) if hb2 else None
                         if rs:
                             kind = ' / '.join(rs) + ' (reported by %s)' % hname
-                elif 'empty_last_read' in c:
+                if kind is None and 'empty_last_read' in c:
                     kind = 'already at end of data'
             # the break after latching EOF is a goto out of the loop from the latch block
             if kind is None and any(blk.i == lblk.i for (lblk, _) in latch):
